@@ -839,6 +839,7 @@ func (e *Engine) invoke(st *State, callee Value, args []Value, reg int, isDefer 
 			fv = FuncV{Fn: tf}
 		}
 		fi := e.info(fn)
+		e.funcs[fn.String()] = true
 		if fn.Blocks == nil {
 			panic(unsupported("call of body-less function " + name))
 		}
